@@ -334,7 +334,8 @@ PROPS["C11"] = {
 PROPS["C15"] = {
     "confirm_reruns": True,
     "id": "C15",
-    "lean_modules": ["JT.Props.C15", "JT.Props.C16", "JT.Props.C10"],
+    "lean_modules": ["JT.Props.C15", "JT.Props.C16", "JT.Props.C10", "JT.Props.C10Src"],
+    "extractors": ["golean"],
     "functional_ops": ["att"],
     "rule": ("upload sessions against a real attachment server subprocess (default handlers; scratch working directory), for each of the five active-safety dialects (HLJ with its length-prefixed chunk header): 1..3 files "
              "(sizes 1 B .. 70 kB; names: plain, containing the chunk marker 30316364, random bytes; content with embedded markers; alarm ids containing '01cd'), each file split into a random partition (chunk lengths 1..65536), "
@@ -402,8 +403,8 @@ PROPS["C20"] = {
 PROPS["C10"] = {
     "confirm_reruns": True,
     "id": "C10",
-    "lean_modules": ["JT.Props.C10", "JT.Props.C03", "JT.Props.C05", "JT.Props.C02"],
-    "extractors": [],
+    "lean_modules": ["JT.Props.C10", "JT.Props.C03", "JT.Props.C05", "JT.Props.C02", "JT.Props.C10Src"],
+    "extractors": ["golean"],
     "functional_ops": ["hostile"],
     "rule": ("real server subprocesses: the attachment server (five dialects, default file handler, scratch cwd), the JT808 server with default handlers and with README-style handlers that Parse+String every body. "
              "astream: hand-made adversarial attachment streams (connect-and-close, lone delimiter/marker, chunk before announcement, 0x1212 before any chunk, impossible chunk lengths/offsets, empty chunk, unknown file, 255-byte names, empty/short/garbage control bodies, "
